@@ -4,25 +4,36 @@
 // Properties C02, C05, C13, C14 (and the ordering part of C07, the worker part of C03).
 package execution
 
-// runTargetCommand is the leaf that starts a shell. Its effect on the ghost command log is a definition (ghostset);
-// its effect on real state (log files, the process) is outside the modelled heap, hence `trusted` + `pure`.
-//@ func runTargetCommand(ctx, target, binToolPaths, outputIdentifiers, command, streamLogs) (out, err)
+// runTargetCommand is the leaf that starts a shell. The command log (ghost) is written by the model of exec.Cmd.Run in
+// specs/40_execution.spec; this contract ties the log entry to the arguments: the templated command runs exactly once, under
+// the caller's context (deadline), and the error returned is nil exactly when the process exited 0 - unless templating
+// fails, in which case nothing runs and an error is returned. What `out` holds is defined, not proved (the output buffer is
+// fed through io.MultiWriter).
+//@ func getCommand(toolMap, outputMap, command) (r, err)
 //@   trusted
+//@   pure
+//@   ensures [named] err == nil ==> r == templateOf(toolMap, outputMap, command)
+
+//@ func GetExtendedTargetEnv(ctx, target) (env)
+//@   trusted
+//@   pure
+
+//@ func runTargetCommand(ctx, target, binToolPaths, outputIdentifiers, command, streamLogs) (out, err)
 //@   requires [in_worker] inWorker || soloPhase
 //@   pure
-//@   ghostset cmdLogCmd := store(cmdLogCmd, cmdLogN, command)
-//@   ghostset cmdLogOK := store(cmdLogOK, cmdLogN, err == nil)
-//@   ghostset cmdLogOut := store(cmdLogOut, cmdLogN, stringOf(arr(out), len(out)))
-//@   ghostset cmdLogDeadline := store(cmdLogDeadline, cmdLogN, hasDeadline(ctx))
-//@   ghostset cmdLogN := cmdLogN + 1
+//@   ensures [runs_the_command_once_or_not_at_all] (cmdLogN == old(cmdLogN) + 1 && cmdLogCmd[old(cmdLogN)] == templateOf(binToolPaths, outputIdentifiers, command) &&
+//@        cmdLogDeadline[old(cmdLogN)] == hasDeadline(ctx) && (err == nil <==> cmdLogOK[old(cmdLogN)])) || (cmdLogN == old(cmdLogN) && err != nil)
+//@   ensures [earlier_log_entries_kept] forall k int :: {cmdLogCmd[k]} k < old(cmdLogN) ==> cmdLogCmd[k] == old(cmdLogCmd[k]) && cmdLogOK[k] == old(cmdLogOK[k]) && cmdLogDeadline[k] == old(cmdLogDeadline[k]) && cmdLogOut[k] == old(cmdLogOut[k])
+//@   ghostset cmdLogOut := ite(cmdLogN > old(cmdLogN), store(cmdLogOut, cmdLogN - 1, stringOf(arr(out), len(out))), cmdLogOut)
 
 // C14/C05: "exited 0 within its timeout"
 //@ func executeTarget(ctx, target, binToolPaths, outputIdentifiers, streamLogs) (err)
 //@   requires [in_worker] inWorker || soloPhase
 //@   pure
-//@   ensures [ran_main_command] cmdLogN == old(cmdLogN) + 1 && cmdLogCmd[old(cmdLogN)] == target.Command
+//@   ensures [ran_main_command] err == nil ==> cmdLogN == old(cmdLogN) + 1 && cmdLogCmd[old(cmdLogN)] == templateOf(binToolPaths, outputIdentifiers, target.Command)
 //@   ensures [error_mapping] err == nil ==> cmdLogOK[old(cmdLogN)]
-//@   ensures [deadline_set] target.Timeout > 0 ==> cmdLogDeadline[old(cmdLogN)]
+//@   ensures [deadline_set] err == nil && target.Timeout > 0 ==> cmdLogDeadline[old(cmdLogN)]
+//@   ensures [at_most_one_command] cmdLogN <= old(cmdLogN) + 1
 //@   ghostset target.mainRan := true
 //@   ghostset target.mainOK := err == nil
 //@   ghostset target.checksOK := false
@@ -33,13 +44,13 @@ package execution
 //@   pure
 //@   ensures [nil_iff_all_pass] err == nil ==> cmdLogN == old(cmdLogN) + len(target.OutputChecks) &&
 //@        (forall i int :: 0 <= i && i < len(target.OutputChecks) ==>
-//@            cmdLogCmd[old(cmdLogN) + i] == target.OutputChecks[i].Command && cmdLogOK[old(cmdLogN) + i] &&
+//@            cmdLogCmd[old(cmdLogN) + i] == templateOf(binToolPaths, outputIdentifiers, target.OutputChecks[i].Command) && cmdLogOK[old(cmdLogN) + i] &&
 //@            (target.OutputChecks[i].ExpectedOutput != "" ==> trimSpace(target.OutputChecks[i].ExpectedOutput) == trimSpace(cmdLogOut[old(cmdLogN) + i])))
 //@   ghostset target.checksOK := err == nil
 //@ loop #1
 //@   invariant [all_so_far_pass] cmdLogN == old(cmdLogN) + rangeindex + 1 &&
 //@        (forall i int :: 0 <= i && i <= rangeindex ==>
-//@            cmdLogCmd[old(cmdLogN) + i] == target.OutputChecks[i].Command && cmdLogOK[old(cmdLogN) + i] &&
+//@            cmdLogCmd[old(cmdLogN) + i] == templateOf(binToolPaths, outputIdentifiers, target.OutputChecks[i].Command) && cmdLogOK[old(cmdLogN) + i] &&
 //@            (target.OutputChecks[i].ExpectedOutput != "" ==> trimSpace(target.OutputChecks[i].ExpectedOutput) == trimSpace(cmdLogOut[old(cmdLogN) + i])))
 
 //@ func formatTargetResultForDebug(targetResult) (s)
